@@ -2,8 +2,14 @@
 import json, os
 from checks_config import PROPS
 
+COMMON = (" The generated search runs in processes that differ in what nobody lists as an input: one P, CPU counts from 1 to 16, a 32-bit build, a -race (checkptr) "
+          "build, a purego/unoptimised build, a start during an entropy outage or with a broken SHA-256 registration, hostile ambient entropy; documented panics are "
+          "provoked and recovered before one case in eight; for functions of the API an endurance unit compares every one of 2^20 (quick) / 2^24 (thorough) calls in one "
+          "process with the model (DESIGN.md 3.5, 3.5a).")
+
+
 def T(level, note, technique, ref):
-    return {"level": level, "note": note, "technique": technique, "design_ref": ref}
+    return {"level": level + COMMON, "note": note, "technique": technique, "design_ref": ref}
 
 MODEL = "Trusted base: the harness reference model (math/big, crypto/sha256; validated against RFC 9380 vectors at start-up), rapid v1.3.0, the Go toolchain."
 
